@@ -138,6 +138,31 @@ pub fn c06(ctx: &Ctx) {
         ("block", SizeProfile::Block, 6..26, if q { 220 } else { 8_000 }),
         ("multi", SizeProfile::Multi, 5..16, if q { 80 } else { 3_000 }),
     ];
+    // histories that cross the end of a WAL file: 96-99 blocks are allocated cheaply first, then
+    // block-sized operations (with entries aimed at exact block ends) fill the last blocks of the
+    // file and roll over to the next one, with reopen events in between
+    {
+        let mut mix = c06_mix();
+        mix.batch_many = 0;
+        e1_search(
+            ctx,
+            "file-end",
+            move || {
+                (any::<u8>(), case_strategy(mix.clone(), SizeProfile::Block, 5..18, 2, mode_strategy()))
+                    .prop_map(|(n, mut c)| {
+                        c.ops.insert(0, AbsOp::Touch { n: 96 + n % 4 });
+                        c
+                    })
+                    .boxed()
+            },
+            opts.clone(),
+            enabled.clone(),
+            c06_nontrivial,
+            true,
+            if q { 60 } else { 3_000 },
+            w,
+        );
+    }
     for (name, prof, nops, cases) in plans {
         let nops2 = nops.clone();
         e1_search(
